@@ -34,6 +34,12 @@ class NohBlackBoxEos(ExactSolver):
             self.eos = equation_of_state
             self.symmetry = initial_conditions['symmetry']
             self.initial_conditions =initial_conditions # Maybe refactor this later so users can change initial conditions. For now focus on black box eos interaction.
+            # the unshocked profile in _run() must be the one the jump conditions were solved for
+            if 'rho0' not in kwargs:
+                self.rho0 = initial_conditions['density']
+            if 'u0' not in kwargs:
+                self.u0 = initial_conditions['velocity']
+            self.p0 = initial_conditions['pressure']
             self.residual_funciton = pressure_noh_residual(self.initial_conditions, self.eos)
 
             if self.geometry not in [1, 2, 3]:
